@@ -101,6 +101,12 @@ CHECKS = {
    note="FPFormat.quantise itself is trusted here (C13/C14). Lossless-vs-original gradients are compared up to float32 re-association (1e-5), because the inserted autograd nodes permute the accumulation order of tensors with >= 3 consumers; outputs bitwise. Known finding: a root module that is itself a torch.nn layer is not transformed.",
    technique="TLA+ rewrite-refines-recipe spec + TLC; TLC-emitted recipe graphs replayed as reference modules against the real transform",
    design="4/C15"),
+ "C17": dict(
+   spec="spec/Transforms.tla, Transforms_MC.tla, Transforms_Trace.tla",
+   text="Transforms models apply_transform as a heap of modules (backend list, lazy re-trace flag, cached pipeline copied by reference on deepcopy, _order_backends) with Apply and Call actions. TLC explores every history with <= 4 modules and <= 3 calls (233k states; transforms may branch from any module, calls interleaved) and checks: the original is never touched, every pipeline is canonical (each transform once, unit scaling before quantisation, track/compile last), the pipeline in effect at a call is the module's own, same transform set => same pipeline, repeated calls do not re-run; a stale-cache and a no-reorder deviation are refuted. Histories are replayed on a family of real modules; per step the harness records which backends actually ran (library log records), a bitwise fingerprint of outputs and gradients (seeds pinned), whether any other module's parameters/buffers changed and storage sharing; Transforms_Trace validates each history (nothing else modified, storage disjoint, canonical pipeline, the computed function depends only on the set of transforms).",
+   note="Backend-list and flag bookkeeping is compared as drift only (torch._dynamo.reset() in one module's call can make another module re-run its backends without changing results). compile (Inductor) only in the thorough tier.",
+   technique="TLA+ heap-of-modules state machine + TLC over all histories; trace validation of replayed transform/call histories",
+   design="4/C17"),
 }
 CHECKS = dict(sorted(CHECKS.items()))
 
